@@ -41,7 +41,7 @@ def check(ctx):
     ctx.assumptions += ["pandas: groupby(sort=True) and outer merge return rows ascending by the keys; reset_index gives 0..n-1",
                         "C01.R1 (the three frames are disjoint) and C15.R3 (gaussian: exactly one model per group with "
                         "outstanding units) are decided by their own checks",
-                        "bootstrap: get_dummies column order equals ascending key order (first key of fixed width)"]
+                        "pandas.get_dummies orders its columns by the (string) values; frame[list] re-orders columns as listed"]
     b = model_builder(ctx)
     F = Frames(b)
     bf = ctx.fn(BASE, "BaseElectionModel.get_aggregate_predictions")
